@@ -53,14 +53,15 @@ type Case struct {
 	Signed bool
 	Lines  []string
 	// oracle bookkeeping (independent of the validator): accepted consensus messages per signer
-	last   map[sigKey][2]uint64
-	counts map[sigKey]map[roundKey]int
-	props  map[sigKey]map[roundKey][]byte
-	Label  string
-	DS     *dutystore.Store // the duty store of THIS case's validator when it is not the world's (handler-driven scenarios)
-	dsKeys [][3]uint64      // proposer entries put by a replayed `duties` line
-	Honest int              // C10: 1 = the next message was emitted by a correct operator (must not be rejected), 2 = … in a fault-free in-order timely run (must be accepted)
-	Exempt bool             // the case touches the out-of-scope empty-committee validator: panics are compared with the model, not flagged
+	last         map[sigKey][2]uint64
+	counts       map[sigKey]map[roundKey]int
+	props        map[sigKey]map[roundKey][]byte
+	Label        string
+	DS           *dutystore.Store // the duty store of THIS case's validator when it is not the world's (handler-driven scenarios)
+	dsKeys       [][3]uint64      // proposer entries put by a replayed `duties` line
+	Honest       int              // C10: 1 = the next message was emitted by a correct operator (must not be rejected), 2 = … in a fault-free in-order timely run (must be accepted)
+	refusedCalls int              // calls for ids this node does not serve (per-id state oracle)
+	Exempt       bool             // the case touches the out-of-scope empty-committee validator: panics are compared with the model, not flagged
 }
 
 func NewCase(run *hx.Run, w *World, signed bool, label string) *Case {
@@ -208,6 +209,7 @@ func (c *Case) ValidateSSV(msg *spectypes.SSVMessage, at time.Time, env Env, kin
 	var pan any
 	var stack string
 	var dec *queue.DecodedSSVMessage
+	l0, i0 := validation.VerifPerIDStateSizes(c.MV)
 	func() {
 		defer func() {
 			if r := recover(); r != nil {
@@ -218,6 +220,7 @@ func (c *Case) ValidateSSV(msg *spectypes.SSVMessage, at time.Time, env Env, kin
 	}()
 	obs, class, tag := Outcome(verr, pan, stack)
 	c.emit(op, obs+" st="+StateDigest(c.MV, msg, signers))
+	c.perIDState(msg, at, l0, i0, class, tag)
 	c.after(kind, class, tag, msg, dec, at, nil, env)
 	return class, tag
 }
@@ -274,6 +277,7 @@ func (c *Case) ValidateP2P(data []byte, topic string, at time.Time, kind string)
 	}
 	op := fmt.Sprintf("p sdo=%d plen=%d ndo=%d top=%d %s topic=%s pdata=%s", b2i(sdo), len(payload), b2i(ndo), b2i(top), fields, tp, pd)
 	pm := &pubsub.Message{Message: &pspb.Message{Data: data, Topic: &topic}}
+	l0, i0 := validation.VerifPerIDStateSizes(c.MV)
 	var verr error
 	var pan any
 	var stack string
@@ -292,8 +296,54 @@ func (c *Case) ValidateP2P(data []byte, topic string, at time.Time, kind string)
 		st = StateDigest(c.MV, inner, signers)
 	}
 	c.emit(op, obs+" st="+st)
+	c.perIDState(inner, at, l0, i0, class, tag)
 	c.after(kind, class, tag, inner, dec, at, &p2pFacts{active: active, topicOK: top, sigLetter: letter, op: envOp}, Env{Mode: "n"})
 	return class, tag
+}
+
+// servedID: does the message ID name a validator this node serves (right domain, valid role, well-formed key of a registered,
+// non-liquidated share with metadata that is attesting)? Evaluated on the world's storage, not by the validator.
+func (c *Case) servedID(msg *spectypes.SSVMessage, at time.Time) bool {
+	w := c.W
+	if !bytes.Equal(msg.MsgID.GetDomain(), w.NetCfg.Domain[:]) || msg.MsgID.GetRoleType() > spectypes.BNRoleVoluntaryExit {
+		return false
+	}
+	pk, err := ssvtypes.DeserializeBLSPublicKey(msg.MsgID.GetPubKey())
+	if err != nil {
+		return false
+	}
+	var share *ssvtypes.SSVShare
+	w.NS.Shares().Range(nil, func(s *ssvtypes.SSVShare) bool {
+		if bytes.Equal(s.ValidatorPubKey, pk.Serialize()) {
+			share = s
+			return false
+		}
+		return true
+	})
+	if share == nil || share.Liquidated || share.BeaconMetadata == nil {
+		return false
+	}
+	epoch := w.NetCfg.Beacon.EstimatedEpochAtSlot(w.NetCfg.Beacon.EstimatedSlotAtTime(at.Unix()))
+	st := share.BeaconMetadata.Status
+	return st.IsAttesting() || (st == eth2apiv1.ValidatorStatePendingQueued && share.BeaconMetadata.ActivationEpoch <= epoch)
+}
+
+// perIDState is the C08 resource oracle on the validator's internals: a call whose message ID does not name a served
+// validator (the ID space is attacker-chosen and unbounded), or that carried no decodable message at all, must leave neither
+// a per-message-ID lock nor a consensus-state entry behind.
+func (c *Case) perIDState(msg *spectypes.SSVMessage, at time.Time, l0, i0 int, class, tag string) {
+	if !oracleOn("c08") || class == "panic" {
+		return
+	}
+	l1, i1 := validation.VerifPerIDStateSizes(c.MV)
+	c.refusedCalls++
+	if msg != nil && c.servedID(msg, at) {
+		c.refusedCalls--
+		return
+	}
+	if l1 != l0 || i1 != i0 {
+		c.violate("C08/unserved-id-leaves-per-id-state", fmt.Sprintf("a message for an id this node does not serve (verdict %s:%s) left per-id state behind: validation locks %d -> %d, consensus states %d -> %d; the id space is attacker-chosen, so memory grows without bound with network input", class, tag, l0, l1, i0, i1))
+	}
 }
 
 // oracleOn: each property's check evaluates its own oracle (mode all: every oracle)
